@@ -56,6 +56,10 @@ package usage
 // desired object; the option never writes other owner references and never fails the apply.
 //@ func usage.RespectOwnerRefs$1
 //@ props C19
+//@ ghost carried bool = false
+//@ let $gvk = result (schema.ObjectKind).GroupVersionKind
 //@ optional site (v1.Object).SetOwnerReferences($o, $refs) as carry-owners
 //@   assert [C19:only-the-existing-owners-of-the-usage-are-carried-over] $o == desired && typeis(current, *composed.Unstructured) && $refs == as(current, *composed.Unstructured).GetOwnerReferences() && len($refs) > 0
+//@   update carried = true
 //@ ensures [C19:the-option-never-fails-the-apply] result == nil
+//@ ensures [C19:a-usages-existing-owners-are-always-carried-over] (typeis(current, *composed.Unstructured) && as(current, *composed.Unstructured) != nil && $gvk == v1beta1.UsageGroupVersionKind && len(as(current, *composed.Unstructured).GetOwnerReferences()) > 0) ==> carried
